@@ -1,6 +1,41 @@
 //! Thin `pub` wrappers over crate-private items, for external verification machinery. Compiled
 //! only with the `verif_hooks` feature. Nothing in here is used by the linker itself.
 
+/// Fault / pause points at phase boundaries. `WILD_VERIF_POINT=<name>:<action>[,<name>:<action>...]` with
+/// action one of `error`, `panic`, `abort`, `kill`, `segv`, `pause=<fifo path>` (blocks until
+/// something is written to the FIFO).
+pub(crate) fn point(name: &str) -> crate::error::Result {
+    let Ok(spec) = std::env::var("WILD_VERIF_POINT") else {
+        return Ok(());
+    };
+    for item in spec.split(',') {
+        let Some((n, action)) = item.split_once(':') else {
+            continue;
+        };
+        if n != name {
+            continue;
+        }
+        match action {
+            "error" => crate::bail!("verif: injected error at {name}"),
+            "panic" => panic!("verif: injected panic at {name}"),
+            "abort" => std::process::abort(),
+            "kill" => unsafe {
+                libc::raise(libc::SIGKILL);
+            },
+            "segv" => unsafe {
+                libc::signal(libc::SIGSEGV, libc::SIG_DFL);
+                libc::raise(libc::SIGSEGV);
+            },
+            other => {
+                if let Some(path) = other.strip_prefix("pause=") {
+                    let _ = std::fs::read(path);
+                }
+            }
+        }
+    }
+    Ok(())
+}
+
 pub mod alignment {
     use crate::alignment::Alignment;
 
